@@ -402,6 +402,36 @@ def scenarios_c16(ctx, binpath):
         inputs.append(("simple", ["--num-threads", "1"], good))
     inputs.append(("cde", ["--cde", "--track", "3", "--num-threads", "1"], os.path.join(TESTRES, "TestAka_partial_export_event.json")))
     inputs.append(("cde-large", ["--cde", "--num-threads", "1"], os.path.join(TESTRES, "cyta_partial_export_event.json")))
+    # documents of more than 8 KiB (a buffered writer hands such a document to the file in one piece, a smaller one only when flushing):
+    # simple format: one course whose 6000 instructors are all assigned to it; CdE: the large fixture with 260 more registrations
+    big = os.path.join(d, "c16_big_simple.json")
+    json.dump({"format": "X-coursedata-simple", "version": "1.0",
+               "courses": [{"name": "Plenum", "num_min": 0, "num_max": 3, "instructors": list(range(6000))}],
+               "participants": [{"name": "I%d" % i, "choices": []} for i in range(6000)] + [{"name": "P", "choices": [{"course": 0, "penalty": 0}]}]},
+              open(big, "w"))
+    inputs.append(("simple-big", ["--num-threads", "1"], big))
+    try:
+        cy = json.load(open(os.path.join(TESTRES, "cyta_partial_export_event.json"), encoding="utf-8"))
+        rid0 = sorted(cy["registrations"], key=int)[0]
+        nxt = max(int(k) for k in cy["registrations"]) + 1
+        for j in range(260):
+            reg = copy.deepcopy(cy["registrations"][rid0])
+            if isinstance(reg.get("persona"), dict):
+                reg["persona"]["family_name"] = "Klon%d" % j
+            for td in reg.get("tracks", {}).values():
+                td["course_instructor"] = None
+                td["course_id"] = None
+                td["choices"] = [int(c) for c in cy["courses"]]
+            cy["registrations"][str(nxt + j)] = reg
+        for c in cy["courses"].values():
+            c["max_size"] = 100
+            c["min_size"] = 0
+        bigc = os.path.join(d, "c16_big_cde.json")
+        json.dump(cy, open(bigc, "w", encoding="utf-8"), ensure_ascii=False)
+        if probe(["--file", bigc, "--cde"]).get("found"):
+            inputs.append(("cde-big", ["--cde", "--num-threads", "1"], bigc))
+    except Exception:
+        pass
     regular = os.path.join(d, "regular_file")
     open(regular, "w").write("x")
     adir = os.path.join(d, "a_directory")
@@ -425,7 +455,7 @@ def scenarios_c16(ctx, binpath):
                 # the device takes only the first 40 / 200 bytes of the document (RLIMIT_FSIZE: short write, then EFBIG)
                 ("PARTIAL-40", os.path.join(d, "c16_part40_%s.json" % tag), True, False),
                 ("PARTIAL-200", os.path.join(d, "c16_part200_%s.json" % tag), True, False),
-            ]:
+            ] + ([("PARTIAL-9000", os.path.join(d, "c16_part9000_%s.json" % tag), True, False)] if name.endswith("-big") else []):
                 if fault.startswith("PARTIAL") and os.path.exists(outp):
                     os.remove(outp)
                 if fault == "none" and os.path.exists(ok):
